@@ -8,7 +8,8 @@ usage: seedtest.py <PROP> <A|B> <CHECK>[,<CHECK>...] [--tier quick|thorough] [--
 import json, os, shutil, subprocess, sys
 prop, which, checks = sys.argv[1:4]
 tier = sys.argv[sys.argv.index('--tier') + 1] if '--tier' in sys.argv else 'quick'
-wt = '/tmp/seed/' + prop
+rnd = sys.argv[sys.argv.index('--round') + 1] if '--round' in sys.argv else ''
+wt = '/tmp/seed%s/' % rnd + prop
 seed = os.path.join(wt, '_seed')
 patch = os.path.join(seed, 'patch_%s.diff' % which)
 demo = os.path.join('_seed', 'demo_%s.py' % which)
@@ -27,7 +28,7 @@ if os.path.isdir(wt) and '--skip-confirm' not in sys.argv:
     rc, out = sh(PYTEST, wt); report['pytest_patched'] = out.strip().splitlines()[-1]
     sh('git checkout -- .', wt)
     print('confirm: demo clean rc=%s patched rc=%s; pytest: %s' % (report['demo_clean'], report['demo_patched'], report['pytest_patched']))
-alt = os.path.join('/verif/seeded', '%s-%s' % (prop, which), 'patch.diff')
+alt = os.path.join('/verif/seeded', '%s-%s%s' % (prop, which, rnd), 'patch.diff')
 rc, out = sh('git -C /repo apply ' + patch)
 if rc != 0 and os.path.exists(alt):
     patch_used = alt        # a copy ported by hand to the current tree
@@ -49,7 +50,7 @@ finally:
     print(sh('git -C /repo status --short --untracked-files=no')[1].strip() or 'repo clean')
     sh('rm -rf /verif/replays/*/[!f]*-????????.json')
 if '--keep' in sys.argv:
-    dst = '/verif/seeded/%s-%s' % (prop, which); os.makedirs(dst, exist_ok=True)
+    dst = '/verif/seeded/%s-%s%s' % (prop, which, rnd); os.makedirs(dst, exist_ok=True)
     if not os.path.exists(os.path.join(dst, 'patch.diff')) or open(os.path.join(dst, 'patch.diff')).read() == open(patch).read() or True:
         pass
     if not (os.path.exists(alt) and rc == 0 and 'patch_used' in globals()):
@@ -63,5 +64,5 @@ if '--keep' in sys.argv:
     json.dump({'property': prop, 'change': which, 'files': ch.get('files'), 'what': ch.get('what'), 'needs': ch.get('needs'),
                'author': 'independent sub-agent given only the property text and a scratch worktree',
                'confirmed': report or prev.get('confirmed'), 'check_results': res,
-               'how_to_run': 'git -C /repo apply seeded/%s-%s/patch.diff; ./check <ID> --tier quick; git -C /repo checkout -- .' % (prop, which)},
+               'how_to_run': 'git -C /repo apply seeded/%s-%s%s/patch.diff; ./check <ID> --tier quick; git -C /repo checkout -- .' % (prop, which, rnd)},
               open(os.path.join(dst, 'meta.json'), 'w'), indent=1)
